@@ -61,6 +61,18 @@ CHECKS = {
              'provenance of the result. Prefetch variants run under the seeded thread scheduler.',
         note='Look-ahead allowance is a conservative sum; two simultaneous iterators are not attributed; '
              'schedules sampled.'),
+    'C09': dict(
+        level='exploration', ref='4 (C09)',
+        technique='deterministic simulation: multi-client history machine (reads by every path, deep in-place '
+                  'mutations of held examples and of the original container), prefetch reads under the thread '
+                  'simulator, oracle = pristine snapshot',
+        text='Seeded histories of 2-3 clients over every storage mode (pickle, copy, wu, memory cache first and later '
+             'accesses, eager cache, disk cache): reads by index of either sign, key, iteration, items, slice, copy '
+             'and prefetch worker threads are interleaved with deep mutations of held examples and, for the '
+             'serialising modes, of the original container; after every step every read must equal the snapshot '
+             'taken at construction.',
+        note='Deep equality after normalisation; wu lists are not read by negative index (they do not support it, an '
+             'indexing matter outside this property).'),
     'C10': dict(
         level='exploration', ref='4 (C10)',
         technique='deterministic simulation with fault injection: history machine against a reference model '
